@@ -147,6 +147,36 @@ def run(ctx: Ctx) -> None:
                 key = K1_KEY if all(in_k1_class(t) for t in trees) and any(o == "InvalidExpressionError" for o in outs) else f"brackets:{variants[0]}"
                 ctx.violation("redundant brackets change validity or outcome", {"variants": variants, "outcomes": [repr(o) for o in outs], "rc": a}, key=key)
                 break
+    # string level against the DOCUMENTED grouping: brackets that are redundant by the documented precedence, and swapped operands,
+    # written with all operator spellings, must not change the outcome (the tree `e` is what the precedence rules prescribe)
+    def nested_then(x):
+        return (not T.is_leaf(x)) and ((x[0] == T.THEN and any((not T.is_leaf(c)) and c[0] == T.THEN for c in (x[1], x[2]))) or nested_then(x[1]) or nested_then(x[2]))
+    for e in exprs[: ctx.pick(200, 2000)]:
+        if nested_then(e):
+            continue
+        keys = E.keys_by_kind(e)["rc"]
+        a = {k: ctx.rng.choice("FUK") for k in keys}
+        swaps = [t2 for kind, t2 in transformations(ctx, e) if kind == "swap"][:2]
+        base_s = T.render(e, T.Style(ctx.rng, "min", "rand", "one")).strip()
+        variants = [("brackets", T.render(e, T.Style(ctx.rng, b, "rand", "one")).strip()) for b in ("rand", "max")]
+        variants += [("swap", T.render(t2, T.Style(ctx.rng, "min", "rand", "one")).strip()) for t2 in swaps]
+        p0 = P.parse_cond(base_s)
+        if "err" in p0:
+            ctx.violation("rendered expression does not parse", {"s": base_s}, key=f"str-parse:{base_s}")
+            continue
+        o0 = outcome(E.eval_rc(p0["lark"], a, EC.hints_for(e)))
+        for kind, s in variants:
+            pv = P.parse_cond(s)
+            ctx.case(("string-level", kind, s))
+            ctx.count("string_level", kind)
+            ov = outcome(E.eval_rc(pv["lark"], a, EC.hints_for(e))) if "err" not in pv else pv["err"]
+            if ov != o0:
+                t0, tv = T.from_json(p0["tree"]), (T.from_json(pv["tree"]) if "err" not in pv else e)
+                k1 = in_k1_class(t0) and in_k1_class(tv) and "InvalidExpressionError" in (o0, ov)
+                ctx.violation(("redundant brackets" if kind == "brackets" else "swapping the operands of an operator") + " change validity or outcome (string level, documented precedence)",
+                              {"expression": base_s, "variant": s, "rc": a, "outcome": repr(o0), "variant_outcome": repr(ov)}, key=K1_KEY if k1 else f"string-{kind}:{base_s}")
+                break
+
     # K1 witness, replayed on every run
     from ahbicht.content_evaluation import is_valid_expression
     import asyncio
